@@ -531,7 +531,7 @@ def replay(path):
         line = text_line("t0", row_text(r), r["exp"] != "unspec") if c["mode"] == "text" else row_line("a0", r)
         v = judge(r, run_harness([line], variant, par=1).get(line.split(" ")[1]))
     if v:
-        print("replay: still failing: %s: %s" % v)
+        print("replay: still failing: %s: %s" % (v[0], v[1]))
         print("VIOLATION property=%s replay=%s" % (PROP, path))
         return 1
     print("replay: passes")
